@@ -59,6 +59,7 @@ type esApp struct {
 	mw     bool
 	after  bool
 	grpMw  bool
+	alias  int  // > 0: this node is a second mount of the application object of node alias
 	slash  bool // mounted with a trailing slash in the prefix ("/api/"): the same mount
 	late   bool // mounted only after the application has started and served an error
 }
@@ -198,6 +199,23 @@ func errselMain(s *simrt.Sim, info *harness.RunInfo) {
 		a.late = s.Chance(200)
 		tree = append(tree, a)
 	}
+	// one application object mounted a second time under another prefix of the root (multi-tenant style):
+	// its handler is owed the errors below either prefix
+	if len(tree) > 1 && s.Chance(150) {
+		i := 1 + s.Draw(len(tree)-1)
+		leaf := true
+		for j := range tree {
+			if j > 0 && tree[j].parent == i {
+				leaf = false
+			}
+		}
+		p := simrt.PickS(s, "/tenant-b", "/alt")
+		if leaf && !used[p] {
+			used[p] = true
+			tree = append(tree, esApp{parent: 0, prefix: p, full: p, hasEH: tree[i].hasEH, alias: i})
+			s.Count("probe_application_mounted_under_two_prefixes")
+		}
+	}
 	for i := range tree {
 		// only leaves are mounted late (an app mounted late brings its own mounts with it anyway)
 		for j := range tree {
@@ -227,6 +245,11 @@ func errselMain(s *simrt.Sim, info *harness.RunInfo) {
 			}
 		}
 	}
+	for i := range tree {
+		if a := tree[i].alias; a > 0 {
+			tree[i].hasEH = tree[a].hasEH // one application object, one configuration
+		}
+	}
 	mountMode := s.Draw(3) // 0 top-down, 1 bottom-up, 2 shuffled
 	order := make([]int, 0, len(tree)-1)
 	for i := 1; i < len(tree); i++ {
@@ -254,6 +277,9 @@ func errselMain(s *simrt.Sim, info *harness.RunInfo) {
 			fmt.Fprintf(&tb, " group %s", a.group)
 		}
 		fmt.Fprintf(&tb, " at %s", a.prefix)
+		if a.alias > 0 {
+			fmt.Fprintf(&tb, " = the application object of app%d", a.alias)
+		}
 		if a.slash {
 			tb.WriteString("/ (trailing slash)")
 		}
@@ -437,6 +463,11 @@ func errselMain(s *simrt.Sim, info *harness.RunInfo) {
 			}
 			apps[i] = fiber.New(cfg)
 		}
+		for i, a := range tree {
+			if a.alias > 0 {
+				apps[i] = apps[a.alias]
+			}
+		}
 		apps[0].Use(mw("root-mw"))
 		for i, a := range tree {
 			if a.mw {
@@ -445,7 +476,7 @@ func errselMain(s *simrt.Sim, info *harness.RunInfo) {
 			if a.after {
 				apps[i].Use(after("app" + strconv.Itoa(i) + "-after"))
 			}
-			if routesFirst {
+			if routesFirst && a.alias == 0 {
 				routes(apps[i], i)
 			}
 		}
@@ -475,7 +506,9 @@ func errselMain(s *simrt.Sim, info *harness.RunInfo) {
 		}
 		if !routesFirst {
 			for i := range tree {
-				routes(apps[i], i)
+				if tree[i].alias == 0 {
+					routes(apps[i], i)
+				}
 			}
 		}
 		apps[0].Handler()
@@ -639,6 +672,9 @@ func errselMain(s *simrt.Sim, info *harness.RunInfo) {
 					continue
 				case len(rq.calls) == 1:
 					w := rq.calls[0].app
+					if tree[want].alias == w && w != 0 {
+						w = want // the shared application object, reached through its second mount
+					}
 					if w != 0 && !esContains(tree[w].full, op.path) {
 						offBoundary = true
 					}
